@@ -203,7 +203,20 @@ def run(pid, tier, seed):
     path = os.path.join(chk.rundir(), "orch.jsonl")
     rc, out = vlib.run_harness("core", ["orch", "-n", str(n), "-seed", str(seed)], path)
     if rc != 0:
-        chk.violation("harness.txt", "harness failed (exit %d):\n%s" % (rc, out[-4000:]), no_input=True)
+        # the process died (a panic on a goroutine of the library cannot be recovered by the harness): the scenario that was
+        # running is the one after the last one written; the stream is deterministic in (seed, index), so that is the replay
+        done = []
+        try:
+            done = vlib.read_jsonl(path)
+        except Exception:
+            pass
+        if "panic:" in out or "fatal error:" in out:
+            chk.violation("crash_scenario_%d.txt" % len(done),
+                          "the process running session histories on the real threshold.Scheme died in history number %d of the stream "
+                          "(seed %d): replay with `build/bin/core orch -n %d -seed %d` (the last history is the failing one)\n\n%s"
+                          % (len(done), seed, len(done) + 1, seed, out[-6000:]))
+        else:
+            chk.violation("harness.txt", "harness failed (exit %d):\n%s" % (rc, out[-4000:]), no_input=True)
         return chk.finish()
     scen = vlib.read_jsonl(path)
     if pid in ("C11", "C12"):
